@@ -150,6 +150,19 @@ def tcp_conn_backlog(rng):
     return head + tail, segs + [tail.hex()]
 
 
+def tcp_conn_slowsplit(rng):
+    """A request that arrives in two segments SECONDS apart (but inside READ_MESSAGE_TIMEOUT), then an idle pause of
+    seconds (again below the timeout), then a second request: each message has the full timeout to itself - time used
+    up by an earlier message must not be carried over."""
+    m1, m2 = answered(rng), answered(rng)
+    f1 = frame(m1)
+    cut_at = rng.choice([1, 2, 3, 10, len(f1) - 1])
+    d1 = rng.choice([2800, 3000, 3300])
+    d2 = rng.choice([3000, 3200, 3400])
+    segs = [f1[:cut_at].hex() + f"@{d1}", f1[cut_at:].hex() + f"@{d2}", frame(m2).hex()]
+    return f1 + frame(m2), segs
+
+
 def tcp_conn_flood(rng):
     """The SAME large query pipelined 100-120 times (5-6 megabytes of responses: more than the largest send queue Linux grows to) by a client that reads nothing until it
     has sent everything and offers a tiny receive window: the server's send queue fills, so its writes come back
@@ -203,6 +216,10 @@ def gen(rng, tier):
             conns = [tcp_conn_flood(rng)] if i % 4 == 3 else [tcp_conn_backlog(rng)] if i % 3 != 2 else [tcp_conn(rng, tier) for _ in range(2)]
             conns = [c for c in conns if c[1]] or [(frame(b""), [frame(b"").hex()])]
             plans.append(("tcp", prov, "eofslow", conns))
+    # slow clients: seconds between the segments of a request and between requests (below READ_MESSAGE_TIMEOUT each time)
+    for prov in PROVS:
+        for i in range(1 if quick else 6):
+            plans.append(("tcp", prov, "eof", [tcp_conn_slowsplit(rng)]))
     n_udp = 18 if quick else 300
     # the wildcard-bound providers (b1w, tkw: clients talk to 127.0.0.2; replies must come FROM that address): UDP mostly
     for prov in ["b1w", "tkw"]:
